@@ -339,6 +339,11 @@ func c16Trees() []histCase {
 	files["shorthand"] = "{{ o = {name, flag, n: 3}; o.name }}|{{ {name}.name }}|{{ {items}.items.len() }}|@each(i in items){{ {i}.i }},@end|{{ [name] }}|{{ {a: {name}}.a.name }}|{{ {\"name\": name, }.name }}|{{ {flag,}.flag ? 'y' : 'n' }}"
 	d2 := specData(map[string]any{"name": "Other", "items": []int{7}, "flag": false})
 	ops := []histOp{
+		// a built-in called with and without its optional argument, and names spelled with slashes around them (not the registered
+		// names: not found, whatever was rendered before)
+		{Kind: "evalstring", Src: "{{ '/a/b/'.trim('/') }}|{{ '--x'.trimLeft('-') }}|{{ 'y..'.trimRight('.') }}|{{ 'abcdef'.truncate(2, '~') }}|{{ [1, 2].join('+') }}|{{ 5.decimal(',', 1) }}", Data: nil},
+		{Kind: "evalstring", Src: "{{ '  p  '.trim() }}|{{ ' \t q'.trimLeft() }}|{{ 'r \n'.trimRight() }}|{{ 'abcdef'.truncate(2) }}|{{ [1, 2].join() }}|{{ 5.decimal() }}", Data: nil},
+		{Kind: "string", Name: "/home", Data: d}, {Kind: "string", Name: "home/", Data: d}, {Kind: "response", Name: "/plain", Data: d}, {Kind: "string", Name: "plain/", Data: d2},
 		{Kind: "string", Name: "shorthand", Data: d}, {Kind: "string", Name: "shorthand", Data: d2}, {Kind: "response", Name: "shorthand", Data: d}, {Kind: "evalfile", Name: "shorthand", Data: d2},
 		{Kind: "string", Name: "home", Data: d}, {Kind: "string", Name: "plain", Data: d}, {Kind: "string", Name: "failing", Data: d},
 		{Kind: "string", Name: "failing2", Data: d}, {Kind: "string", Name: "nosuch", Data: d}, {Kind: "response", Name: "home", Data: d},
